@@ -66,15 +66,15 @@ def bounds(tier):
     return {"entry_alphabet": NAMES, "passes": [{"max_entries": e, "permuted_directories_per_schedule": d} for e, d in _PLAN[tier]], "search_paths": ["s1", "s2"]}
 
 
-LINK_ENTRIES = ("sub-link", "m-link")
+CORE_ENTRIES = tuple(NAMES[:17])
 
 
 def layouts(maxe):
     for k in range(1, maxe + 1):
         for combo in itertools.combinations(range(len(NAMES)), k):
             names = [NAMES[i] for i in combo]
-            if k >= 5 and any(n in LINK_ENTRIES for n in names):
-                continue  # (symbolic links take part in layouts of up to four entries: a followed link doubles the walk, the five-entry pass stays at the size it was sized for)
+            if k >= 5 and any(n not in CORE_ENTRIES for n in names):
+                continue  # (the five-entry pass runs over the 17 core entries it was sized for; the entries added since take part in layouts of up to four entries)
             if "init" in names and "pkgutil-ns" in names:
                 pass  # same file name: only possible on different search paths (handled below)
             for places in itertools.product((1, 2), repeat=k):
